@@ -116,19 +116,29 @@ def run_batch(cases):
         specs = []
         evmap, excmap = {}, {}
         errobjs = {}
+        # as on a bus: a pending result per handler is created first, in handler order; the outcomes are then recorded in
+        # the order the handlers finish (`order`, any permutation) - the recorded results stay in handler order
+        n = len(case['results'])
+        specs = [None] * n
         for i, (hname, okind, vkind) in enumerate(case['results']):
             def h(e):
                 return None
             h.__name__ = f'n{hname}'
             h.__qualname__ = f'n{hname}'
             handlers.append(h)
+            ev.event_result_update(handler=h, eventbus=bus, status='pending')
+        order = [i for i in (case.get('order') or []) if i < n]
+        order += [i for i in range(n) if i not in order]
+        for i in order:
+            hname, okind, vkind = case['results'][i]
+            h = handlers[i]
             if okind in ('e', 'c'):
                 # an error result: an ordinary exception, or (c) the CancelledError bubus records for a handler it cancelled
                 ex = ValueError(f'raised by {i}') if okind == 'e' else asyncio.CancelledError(f'cancelled {i}')
                 excmap[id(ex)] = i
                 errobjs[i] = ex
                 ev.event_result_update(handler=h, eventbus=bus, error=ex)
-                specs.append(f'{i}:{hname}:e:N:N')
+                specs[i] = f'{i}:{hname}:e:N:N'
                 continue
             if vkind == 'event':
                 v = Child()
@@ -151,7 +161,7 @@ def run_batch(cases):
                 except Exception:
                     vd = '-'
             ev.event_result_update(handler=h, eventbus=bus, result=v)
-            specs.append(f'{i}:{hname}:r:{enc(v, evmap, excmap)}:{vd}')
+            specs[i] = f'{i}:{hname}:r:{enc(v, evmap, excmap)}:{vd}'
         ev.event_completed_signal.set()
         rl = list(ev.event_results.values())
         for i, r in enumerate(rl):
@@ -251,7 +261,8 @@ def gen_case(rng):
             results.append((hname, 'r', vk))
     return {'type': ty, 'results': results, 'incl': rng.choice(['default', 'default', 'all', 'ints', 'completed']),
             'ra': rng.random() < 0.5, 'rn': rng.random() < 0.5, 'rc': rng.random() < 0.5,
-            'decl': rng.choice(['inst', 'inst', 'generic', 'field', 'sub_field', 'sub_inherit'])}
+            'decl': rng.choice(['inst', 'inst', 'generic', 'field', 'sub_field', 'sub_inherit']),
+            'order': rng.sample(range(n), n) if rng.random() < 0.5 else []}
 
 
 def parse_tres(line):
